@@ -581,6 +581,14 @@ def _num(x):
     return int(x) if x.denominator == 1 else float(x)
 
 
+def _time(x):
+    """a time for a TablePT entry: int / float when it is a binary fraction (exact), otherwise the exact rational as an
+    expression string (a Python float would reach the waveform through sympy cut to 15 significant digits and a step
+    meant to lie ON sample k would lie beside it; family step_on_sample)"""
+    x = F(x)
+    return _num(x) if x.denominator & (x.denominator - 1) == 0 else '%d/%d' % (x.numerator, x.denominator)
+
+
 def build_template(desc, rate, rename=None):
     """rename: description channel name -> channel id used by the template"""
     from qupulse.pulses import TablePT, ConstantPT
@@ -588,14 +596,14 @@ def build_template(desc, rate, rename=None):
     const = all(len(e) == 2 and e[0][1] == e[1][1] for e in chans.values())
     dur = F(desc['len']) / rate
     # 'eps': the piece is a float hair longer / shorter than len samples (get_waveform_length has a tolerance of 1e-10)
-    end = float(F(desc['len']) + F(desc['eps'])) / float(rate) if desc.get('eps') else _num(dur)
+    end = float(F(desc['len']) + F(desc['eps'])) / float(rate) if desc.get('eps') else _time(dur)
     if const and desc.get('pt') == 'const':
         return ConstantPT(end, {k: _num(e[0][1]) for k, e in chans.items()})
     table = {}
     for k, ent in chans.items():
         rows = [(0, _num(ent[0][1]))]
         for e in ent[1:-1]:
-            rows.append((_num(F(e[0]) / rate), _num(e[1]), e[2]))
+            rows.append((_time(F(e[0]) / rate), _num(e[1]), e[2]))
         rows.append((end, _num(ent[-1][1]), ent[-1][2]))
         table[k] = rows
     return TablePT(table)
